@@ -218,7 +218,7 @@ def explore(ctx, state):
         "texts": int(sm["texts"]), "base_texts": int(sm["base"]),
         "requests": int(sm["requests"]), "panics": int(sm["panics"]),
         "by_request": by_request,
-        "panics_attributed_to_known_findings": {k: len(v) for k, v in hits.items()},
+        "panic_lines_attributed_to_known_findings": {k: len(v) for k, v in hits.items()},   # at most 3 lines per request kind and text are printed
         "unattributed_panics": len(new),
         "probe_unopened_uri_not_part_of_the_property": probe,
         "rule": "base texts: hand-written boundary documents, examples/**/*.par, crates/parol/src/parser/parol.par "
